@@ -884,6 +884,38 @@ func shape(in Input) string {
 	return sb.String()
 }
 
+// sig: known-finding signature, computed from the INPUT only.
+// map-tracked-key-unselected: a hook-running map update (Update / Updates(map)) whose map names a
+// tracked update-time field that has update permission, while a non-empty Select list does not name
+// that field and no Omit names it: the field is neither written nor refreshed.
+func sig(in Input) string {
+	if in.Kind != "update" && in.Kind != "updates_map" || len(in.Selects) == 0 {
+		return ""
+	}
+	t := types[in.Type]
+	namesField := func(items []SItem, j int) bool {
+		for _, s := range items {
+			switch s.Form {
+			case "star", "tabstar":
+				return true
+			case "field", "col", "tabcol":
+				if s.Field == j {
+					return true
+				}
+			}
+		}
+		return false
+	}
+	for _, pv := range in.Rows[0].PV {
+		f := t.Fields[pv.Field]
+		updatable := f.RO == "" && (f.RW == "" || f.RW == "<-" || f.RW == "update" || f.RW == "create,update")
+		if f.Auto == "update" && hasColumn(f) && updatable && !namesField(in.Selects, pv.Field) && !namesField(in.Omits, pv.Field) {
+			return "map-tracked-key-unselected"
+		}
+	}
+	return ""
+}
+
 func main() {
 	a := lib.ParseArgs()
 	e := openEnv()
@@ -894,7 +926,7 @@ func main() {
 		o := run(e, in)
 		nontriv := len(o.Cells) > 0 && (len(in.Selects)+len(in.Omits) > 0 || in.Type != 0)
 		out.Add(lib.Case{Term: term(in, o), JSON: map[string]interface{}{"input": in, "observed": o},
-			Sig: "", Kind: kind, Shape: shape(in), Nontriv: nontriv})
+			Sig: sig(in), Kind: kind, Shape: shape(in), Nontriv: nontriv})
 		out.Count("finisher", in.Kind)
 		out.Count("model_type", fmt.Sprintf("M%d", in.Type+1))
 		out.Count("selects", fmt.Sprint(len(in.Selects)))
@@ -948,7 +980,11 @@ func main() {
 		if edge {
 			kind = "edge"
 		}
-		add(kind, genInput(r, edge))
+		in := genInput(r, edge)
+		if sig(in) != "" {
+			kind = "known-shape"
+		}
+		add(kind, in)
 	}
 	out.Extra["rule"] = "a case = one write finisher (Create, Create(&slice)/CreateInBatches, Create from map, upsert UpdateAll / DoUpdates(cols) / DoNothing, Save, Update, Updates struct|map, UpdateColumn, UpdateColumns struct|map) on one of SIX FIXED hand-written model types (no code generation; together they carry every permission tag <-:create <-:update <-:false <- -> ->:false ->;<-:create - -:migration -:all <-:create,update, custom column names, and auto-time fields as time.Time / unix seconds / milliseconds with and without write permission) x random Select/Omit lists (0-3 items: '*', 'tbl.*', struct-field spelling, column spelling, 'tbl.col', unknown name) x payload with zero and non-zero entries (struct: every field; map: 1-4 keys in column or field spelling) x model key and/or Where(id IN subset) selecting a strict subset of the 4 stored rows. Observed: the cell-by-cell diff of the table (raw SELECT) with each changed cell classified now / payload value / other, and gorm's parsed permission flags. Domain: map keys name existing columns and (for updates) never the primary key; DoUpdates(cols) runs without Select/Omit; the struct payload is of the model type with a zero key; updates always carry a model key or a Where; explicit DoUpdates lists name only columns with create and update permission. distinct = distinct (type, finisher, select, omit, payload zero pattern and spelling, targeting); non-trivial = some cell changed and (a Select/Omit is present or the type carries permission tags)."
 	lib.Must(out.Flush())
